@@ -636,7 +636,7 @@ func features(c Case) []string {
 var spec = pbt.Spec[Case]{
 	ID:          "C13",
 	Rule:        "generated: LIKE patterns over {%,_,a,b,.,*,(,[,+,?,^,$,é,space} with forced shapes (%%, empty, leading/trailing/inner wildcards, head and tail sharing a piece (h o % o r with the too-short text h o r), pattern = text, texts expanded from the pattern, near misses: head + truncated tail around the last %, one character dropped / doubled / case-swapped); one like case in four is followed by the same texts against the case-swapped pattern in the same process state; every case starts from empty process-wide expression caches; x texts (strings over the same alphabet, NULL, missing, ints) and IS [NOT] NULL tests on a column, nested path and function call; each evaluated in WHERE, CASE WHEN, SELECT boolean item and HAVING (one-row counting window). oracle: anchored regexp built with QuoteMeta per literal character (% -> .*, _ -> .), NULL/missing text not true; IS NULL <=> absent or NULL; same answer in every context. non-trivial = pattern with an inner wildcard or a text containing % or _ (LIKE), both a NULL and a non-NULL row (null tests); distinct by case hash",
-	Assumptions: []string{"string literals cannot contain the quote character (lexer has no escape)", "LIKE on a non-string value and the value of other functions on NULL are not fixed by the property: only crash-freedom is checked there"},
+	Assumptions: []string{"string literals cannot contain the quote character (lexer has no escape); a raw carriage return or line feed inside the pattern literal is outside the documented grammar (the row's text may contain them)", "LIKE on a non-string value and the value of other functions on NULL are not fixed by the property: only crash-freedom is checked there"},
 	Gen:         genCase,
 	Run:         runCase,
 	Features:    features,
